@@ -519,6 +519,16 @@ def panic_key(case, msg):
 def replay(rep, path):
     payload = json.load(open(path))
     harness = fw.build_harness()
+    if "detail" in payload and "input" not in payload:
+        print(json.dumps(payload, indent=1))
+        return
+    if "site" in payload:           # site correspondence: re-run the np_* command as recorded and compare with the model
+        r = fw.run_rust(harness, [payload["input"]])
+        print("implementation now: " + json.dumps(r[0]))
+        print("model (recorded):   " + str(payload.get("model")))
+        if "panic" in r[0] or "abort" in r[0] or json.dumps(r[0], sort_keys=True) == json.dumps(payload.get("rust"), sort_keys=True):
+            rep.violation(payload, no_failing_input=(payload.get("kind") == "correspondence"))
+        return
     r = fw.run_rust(harness, [dict(payload["input"], cmd="pipeline")])
     print(json.dumps(r))
     if "panic" in r[0] or "abort" in r[0]:
